@@ -11,6 +11,10 @@ from mc import refcip as R
 _L = None
 
 
+class OneOf(tuple):
+    """projection of an opaque field that the library may legitimately hold in more than one representation"""
+
+
 class Lib:
     pass
 
@@ -336,9 +340,15 @@ def rpy_project(p):
     elif base == 0x03:
         # parsed as UINTs by cpppo (opaque): re-pack
         if "get_attribute_list" in p and hasattr(p["get_attribute_list"], "get") and "data" in p["get_attribute_list"]:
+            # the body is opaque to cpppo: it may hold it as 16-bit words or as octets -- either is a faithful parse
             import struct
-            words = list(p["get_attribute_list"]["data"])
-            r["data"] = struct.pack("<%dH" % len(words), *words)
+            vals = list(p["get_attribute_list"]["data"])
+            cands = []
+            if all(0 <= x <= 0xFFFF for x in vals):
+                cands.append(struct.pack("<%dH" % len(vals), *vals))
+            if all(0 <= x <= 0xFF for x in vals):
+                cands.append(bytes(bytearray(vals)))
+            r["data"] = OneOf(cands)
     elif base == 0x10:
         if not p["set_attribute_single"]:
             raise KeyError("set_attribute_single")
